@@ -237,6 +237,14 @@ def judge(R, c, p, N, capture, solve, model, G, extra_api):
     R.sample(dict(case=c.describe(), relation=relation, accepted=accepted, satisfiable=sat, constraints=len(cap.cons)), cap=6)
     det = dict(case=c.describe(), pre_src=c.pre_src, op_src=c.op_src, p=p, relation=relation, accepted=accepted, satisfiable=sat,
                flags=ref.flags[:2], exc=repr(G_api.exc)[:200])
+    if relation and accepted:
+        # the same true assertion with the user's ignore_errors(True) in effect: the witness the library itself
+        # computed must still satisfy what it emitted (checks off changes what is *checked*, not what is proved)
+        R.count("honest_witness_unchecked_evaluated")
+        if not cap.satisfied:
+            R.violation("true-accepted-unchecked-witness-unsat:" + c.tid,
+                        "%s on %s: relation true and accepted with checks on, but with checks off the library's own witness violates the emitted constraints"
+                        % (c.expr, c.inputs), **det)
     if relation:
         if accepted and not sat:
             R.violation("true-accepted-unsat:" + c.tid, "%s on %s: relation true, call accepted, constraints unsatisfiable" % (c.expr, c.inputs), **det)
